@@ -79,6 +79,14 @@ func (a *AggOracle) processLatestGER(ctx context.Context, blockNumToFetch *uint6
 	// Fetch the latest GER
 	blockNum, gerToInject, err := a.getLastFinalizedGER(ctx, *blockNumToFetch)
 	if err != nil {
+		if errors.Is(err, l1infotreesync.ErrBlockNotProcessed) {
+			// The syncer has not reached the block yet: keep it as the target of the next iterations.
+			// Otherwise a syncer that lags behind a moving finalized block is never asked for a block it has.
+			*blockNumToFetch = blockNum
+		} else {
+			// Any other failure: ask the L1 client for the finalized block again
+			*blockNumToFetch = 0
+		}
 		return err
 	}
 
